@@ -55,6 +55,7 @@ def strategy(tier):
                             fd_st(), max_size=nmax),
         # fault: close descriptor (index into sorted fds) before access k (mod N)
         closes=st.lists(st.tuples(st.integers(0, 50), st.integers(0, 400)), max_size=2),
+        oneshot=st.booleans(),   # all calls inside one `with p.oneshot():` block
         io=st.fixed_dictionaries(dict(
             vals=st.lists(st.one_of(st.sampled_from([0, 1, 2**32, 2**63, 2**64 - 1]),
                                     st.integers(0, 2**40)), min_size=7, max_size=7),
@@ -71,7 +72,8 @@ def strategy(tier):
 
 
 def target_of(kind, fd):
-    base = f"{ROOT}/data/file{fd}"
+    # file names ending in characters of " (deleted)" itself, too
+    base = f"{ROOT}/data/file{fd}" + ("", ".txt", "-deleted", " (old)", ".d")[fd % 5]
     if kind == "reg":
         return base, base
     if kind == "reg-space":
@@ -159,8 +161,12 @@ def run_case(case):
 
     k, pid, exp, io_vals = build(case)
     labels = set()
-    with simk.installed(k):
+    import contextlib
+    with simk.installed(k), contextlib.ExitStack() as stack:
         p = psutil.Process(pid)
+        if case.get("oneshot"):
+            stack.enter_context(p.oneshot())
+            labels.add("inside-oneshot")
 
         def safe(name, fn):
             try:
